@@ -100,6 +100,9 @@ func (p *parser) doExpression(rbp int) *token {
 	t := p.Token
 	p.Next()
 	left := getSymbol(t).Nud(p, t)
+	if t.Symbol == ";" { // an empty statement: what follows begins the next statement, it is not an infix operator
+		return left
+	}
 	for rbp < getSymbol(p.Token).Lbp && !slices.Contains(p.mask, p.Token.Symbol) {
 		t = p.Token
 		p.Next()
